@@ -97,8 +97,16 @@ func execC13(seq []int, faults []int, keepLog bool) (res c13run, conn *pgfake.Co
 	conn.KeepLog = keepLog
 	conn.FailAt(faults...)
 	// every other fault set fails with an error that wraps context.Canceled
-	if h := len(seq)*31 + len(faults); len(faults) > 0 && (h+faults[0])%2 == 0 {
-		conn.CancelIdentity = true
+	// ... a quarter with the server's own error values (*pgconn.PgError) for conditions a client is tempted to handle
+	// specially: serialization failure, deadlock, cancelled query, lost connection
+	if len(faults) > 0 {
+		k := len(seq)*31 + len(faults)*7 + faults[0]
+		switch k % 4 {
+		case 0, 2:
+			conn.CancelIdentity = true
+		case 1:
+			conn.SQLState = []string{"40001", "40P01", "57014", "08006"}[(k/4)%4]
+		}
 	}
 	store := postgres.NewPgDb().WithConnection(conn).WithSchema("vvise")
 	store.SetSession("ses")
